@@ -516,6 +516,38 @@ def hc_case(rng):
     return "hc %d %s %d %s" % (M, fmt_pool(pool), NR, " ".join(ops))
 
 
+# ------------------------------------------------------------------------------------------ two contexts
+def vs_case(rng):
+    """two vectors over DIFFERENT context objects (Z[x,y] and Z_M[x,y], or two equal-but-distinct Z contexts),
+    pushes into both, lp_polynomial_vector_swap, then at / size / get_context on both handles"""
+    M = rng.choice([0, 3, 5, 5, 7])
+    P = rng.randint(2, 8)
+    pool = []
+    while len(pool) < P:
+        sp = (rng.choice([3, 4, 6, 7, 9, 12, -8, 11]), rng.randint(0, 3), rng.randint(0, 2), rng.choice([0, 7, 9, -6, 13, 4]))
+        if sp not in pool and not (sp[1] == 0 and sp[2] == 0 and sp[3] != 0):
+            pool.append(sp)
+    ops = []
+    for _ in range(rng.choice([4, 8, 14, 25])):
+        o = rng.choices(["a", "b", "A", "B", "w", "t"], [25, 25, 8, 8, 25, 3])[0]
+        if o == "w":
+            ops.append("w")
+        elif o == "t":
+            ops.append("t%d" % rng.randint(1, 2))
+        else:
+            ops.append("%s%d" % (o, rng.randrange(P)))
+    if "w" not in ops:
+        ops.insert(rng.randint(1, len(ops)), "w")
+    return "vs %d %s %s" % (M, fmt_pool(pool), " ".join(ops))
+
+
+def second_context(case):
+    """the same history with the key polynomials (contains / remove / intersect / heap remove keys, every other
+    inserted element) built in a second context OBJECT that is equal to the container's"""
+    kind, rest = case.split(" ", 1)
+    return kind + "2 " + rest
+
+
 # ------------------------------------------------------------------------------------------ entry points
 def generate(rng, tier):
     scale = 3 if tier == "quick" else 40
@@ -531,7 +563,12 @@ def generate(rng, tier):
             ("hp:dups", 30, lambda: hp_dup_case(rng)),
             ("hp:shape", 80, lambda: hp_shape_case(rng)),
             ("vc", 40, lambda: vc_case(rng)),
-            ("hc:computed", 120, lambda: hc_case(rng))]
+            ("hc:computed", 120, lambda: hc_case(rng)),
+            ("hs2:ctx2", 40, lambda: second_context(rng.choice([hs_chain_case, lambda r: hs_case(r, "cluster64"),
+                                                               lambda r: hs_case(r, "wrap64"), lambda r: hs_case(r, "random")])(rng))),
+            ("hp2:ctx2", 40, lambda: second_context(rng.choice([lambda r: hp_case(r, False), lambda r: hp_case(r, True),
+                                                               hp_dup_case, hp_shape_case])(rng))),
+            ("vs:swap", 60, lambda: vs_case(rng))]
     cases = []
     for name, n, f in plan:
         for _ in range(n * scale):
@@ -557,6 +594,10 @@ def nontrivial(case):
     if kind == "hc":
         ops = t[3 + 4 * int(t[2]) + 1:]
         return any(o[0] == "C" for o in ops) and any(o[0] in "iIm" for o in ops)
+    if kind == "vs":
+        ops = t[3 + 4 * int(t[2]):]
+        return "w" in ops and len(ops) >= 3
+    kind = kind.rstrip("2")
     P = int(t[1])
     per = 5 if kind == "hp" else 4
     ops = t[2 + per * P:]
@@ -582,9 +623,11 @@ def explain(case, c_out, m_out):
     t = case.split()
     if t[0] == "hc":
         ops = t[3 + 4 * int(t[2]) + 1:]
+    elif t[0] == "vs":
+        ops = t[3 + 4 * int(t[2]):]
     else:
         P = int(t[1])
-        per = 5 if t[0] == "hp" else 4
+        per = 5 if t[0].startswith("hp") else 4
         ops = t[2 + per * P:]
     cg, mg = _groups(c_out), _groups(m_out)
     for k in range(max(len(cg), len(mg))):
@@ -605,7 +648,7 @@ def extra_coverage(cases, couts, mouts):
             hang += 1
         if mo and mo.startswith("CHECK ok tie-divergent"):
             ties_div += 1
-        if not c.startswith("hs "):
+        if not (c.startswith("hs ") or c.startswith("hs2 ")):
             continue
         toks = co.split()
         P = int(c.split()[1])
